@@ -252,6 +252,15 @@ impl<'a, 'b> G<'a, 'b> {
                         // the new binding hides the old one from here on
                         sc.vars.retain(|x| x.name != v.name);
                         sc.vars.insert(0, Vis { name: v.name.clone(), ty: T::Int, level });
+                        // call the closure AFTER the re-declaration: it must still see the old binding
+                        let probe = self.fresh_name();
+                        let pc = self.constant();
+                        let keep_name = match &decls[decls.len() - 2] {
+                            Decl::Let(n, _) => n.clone(),
+                            _ => unreachable!(),
+                        };
+                        decls.push(Decl::Let(probe.clone(), E::CallV(Box::new(E::Var(keep_name)), vec![int(pc)])));
+                        sc.vars.insert(0, Vis { name: probe, ty: T::Int, level });
                         self.shadow_with_capture += 1;
                     }
                 }
